@@ -419,8 +419,43 @@ def handleMd (j : Json) : P Json := do
   let can := Json.arr ((canonItems items).map (fun (k, v) => Json.arr #[.str k, pyvalToJson v])).toArray
   pure (Json.mkObj [("obj", rToJson objToJson o), ("back", back), ("canon", can)])
 
+-- ---------- PointList / PointListArray (C04)
+
+/-- the length h5py reports for a stored column: second component of the token "dtype|[n]|digest" -/
+def tokLen (t : String) : Nat :=
+  -- the dtype itself may contain '|': the shape is the last component but one; the length is its first extent
+  let parts := t.splitOn "|"
+  let shp := parts.getD (parts.length - 2) ""
+  let inner := ((shp.replace "[" "").replace "]" "")
+  match inner.splitOn "," with
+  | first :: _ => first.trimAscii.toString.toNat?.getD 0
+  | [] => 0
+
+def handlePoints (j : Json) : P Json := do
+  if let some pl := optField j "pointlist" then
+    let fields ← (← pl.getArr?).toList.mapM (fun e => do
+      let a ← e.getArr?
+      if a.size != 3 then throw "bad field"
+      pure ((← a[0]!.getStr?), (← a[1]!.getStr?), (← a[2]!.getStr?)))
+    let p : PLVal := { fields := fields, length := (← natField j "length") }
+    let body := p.toBody
+    let extra ← match optField j "extra" with | some x => bodyOfJson x | none => pure []
+    let back := PLVal.fromBody tokLen (body ++ extra)
+    pure (Json.mkObj [("body", bodyToJson body),
+      ("back", rToJson (fun (q : PLVal) => Json.mkObj [("fields", Json.arr (q.fields.map (fun f => Json.arr #[.str f.1, .str f.2.1, .str f.2.2])).toArray),
+        ("length", (q.length : Nat))]) back)])
+  else
+    let q : PLAVal := { dtype := ← strField j "dtype", rows := ← natField j "rows", cols := ← natField j "cols",
+                        cells := ← strListOfJson (← j.getObjVal? "cells") }
+    let body := q.toBody
+    let back := PLAVal.fromBody body
+    pure (Json.mkObj [("body", bodyToJson body),
+      ("back", rToJson (fun (b : PLAVal) => Json.mkObj [("dtype", .str b.dtype), ("rows", (b.rows : Nat)), ("cols", (b.cols : Nat)),
+        ("cells", strListToJson b.cells)]) back)])
+
 def handle (op : String) (j : Json) : P Json := do
   match op with
+  | "points" => handlePoints j
   | "md" => handleMd j
   | "array" => handleArray j
   | "forest" =>
